@@ -8,13 +8,15 @@ from harness.common import struct_hash
 from harness.ns import QNAMES
 
 ID = "C07"
-LEAN_MODULES = ["Pypika.Props.C07", "Pypika.Whole", "Pypika.WholeStr"]
+LEAN_MODULES = ["Pypika.Props.C07", "Pypika.Whole", "Pypika.WholeStr", "Pypika.BuilderFrame"]
 TRACE_BUILDER = True   # builder calls made by this check are also run through Pypika.B.step (harness/trace.py)
 THEOREMS = ["Pypika.C07.setDefaults_outer_wins", "Pypika.C07.setDefaults_governs", "Pypika.C07.top_level_conventions",
             "Pypika.C07.nested_query_ctx", "Pypika.C07.setop_ctx", "Pypika.C07.fn_ctx", "Pypika.C07.interval_form",
             "Pypika.Whole.quote_uniform_all", "Pypika.Whole.ident_quote_uniform", "Pypika.Whole.ident_quote_uniform_query",
             "Pypika.Whole.ident_quote_uniform_setop", "Pypika.Whole.toplevel_quote",
-            "Pypika.WholeStr.str_quote_uniform", "Pypika.WholeStr.str_quote_uniform_query"]
+            "Pypika.WholeStr.str_quote_uniform", "Pypika.WholeStr.str_quote_uniform_query",
+            # no builder call changes the statement's class / dialect / AS keyword / wrapping / alias (BuilderFrame.lean)
+            "Pypika.B.step_config", "Pypika.B.run_config"]
 AGREE = ["Pypika.Agree.class_quotes", "Pypika.Agree.classes_complete", "Pypika.Agree.format_alias",
          "Pypika.Agree.interval_templates"]
 TRUSTED = ["the identifier/alias vocabulary of the generator (table, column and alias names are recognised by name in the "
